@@ -77,6 +77,47 @@ fn run_static(positions: &[(B, bool)], rng: &mut Rng, rep: &mut Report, sink: &m
     }
 }
 
+/// tiny boards on which both sides walk into dead ends and undo their turns: the repetition rules
+/// then empty the action list in the middle of a turn (fourth step, nothing to move, pass withheld)
+fn stale_games(rng: &mut Rng, n: usize, rep: &mut Report, sink: &mut Sink) {
+    for k in 0..n {
+        let (b, side) = random_position(rng, [2, 3, 3, 4][k % 4], true, k % 2 == 0);
+        if let Some(mut g) = mk_game(&b, side, "3") {
+            let mut player = Player::new(Policy::StaleSeek, true);
+            playout(&mut g, &mut player, 120, rng, rep, sink, Emit { obs_pm: 60, all_t_pm: 0 });
+        }
+    }
+}
+
+/// plays a fixed script (as long as each action is offered), checking every state
+fn run_scripts(rng: &mut Rng, rep: &mut Report, sink: &mut Sink, em: Emit) {
+    let scripts = double_capture_scripts();
+    rep.count_n("double-capture-scripts", scripts.len() as u64);
+    for (b, side, script) in scripts {
+        let Some(mut g) = mk_game(&b, side, "8") else { continue };
+        for (i, d) in script {
+            g.check_state(rep);
+            let a = arimaa_engine_step::Action::Move(arimaa_engine_step::Square::from_index(i as u8), dir_of(d));
+            let offered = util::guard(|| g.state.valid_actions()).map_or(false, |v| v.contains(&a));
+            if rng.chance(em.obs_pm, 1000) {
+                // `T` answers refer to the state of the last `S` line
+                sink.emit(&format!("S {}", enc_state(&g.state, g.init_hash)), "ok");
+                sink.emit("O", &observe(&g.state));
+                if offered {
+                    g.emit_take(sink, &a);
+                }
+            }
+            if !offered {
+                break;
+            }
+            if !g.step(&a, rep) {
+                break;
+            }
+        }
+        g.check_state(rep);
+    }
+}
+
 fn run_corpus(repo: &str, rng: &mut Rng, plies: usize, rep: &mut Report, sink: &mut Sink, em: Emit) {
     let c = corpus(repo);
     rep.count_n("corpus-diagrams", c.len() as u64);
@@ -132,6 +173,7 @@ fn campaign(a: &Args, rng: &mut Rng, rep: &mut Report, sink: &mut Sink) {
             run_positions(rng, 150 * sc, &[6, 12, 20, 30], &[Policy::PushPull, Policy::Uniform, Policy::FourSteps, Policy::Capture], 40, true, rep, sink, light);
         }
         "C02" | "C13" => {
+            run_scripts(rng, rep, sink, Emit { obs_pm: 300, all_t_pm: 0 });
             run_motifs(rng, 1200 * sc, 6, rep, sink, Emit { obs_pm: 400, all_t_pm: 300 });
             run_positions(rng, 120 * sc, &[8, 16, 26], &[Policy::Capture, Policy::PushPull, Policy::Uniform], 50, true, rep, sink, Emit { obs_pm: 300, all_t_pm: 300 });
         }
@@ -159,7 +201,7 @@ fn campaign(a: &Args, rng: &mut Rng, rep: &mut Report, sink: &mut Sink) {
         "C05" | "C06" | "C07" => {
             // games from the initial state through a full setup: the opening position itself can repeat
             for k in 0..8 * sc {
-                setup_walk(rng, rep, sink, Emit { obs_pm: 150, all_t_pm: 0 }, 70, if k % 2 == 0 { Policy::RepSeek } else { Policy::Restore });
+                setup_walk(rng, rep, sink, Emit { obs_pm: 150, all_t_pm: 0 }, 70, [Policy::Shuttle, Policy::RepSeek, Policy::Shuttle, Policy::Restore][k % 4]);
             }
             for k in 0..250 * sc {
                 let (b, side) = random_position(rng, [2, 3, 4, 6][k % 4], true, k % 2 == 0);
@@ -169,6 +211,7 @@ fn campaign(a: &Args, rng: &mut Rng, rep: &mut Report, sink: &mut Sink) {
                 }
             }
             run_positions(rng, 40 * sc, &[10, 24], &[Policy::RepSeek, Policy::Capture], 120, false, rep, sink, Emit { obs_pm: 100, all_t_pm: 50 });
+            stale_games(rng, 150 * sc, rep, sink);
             crafted::run(rng, 4000 * sc, rep, sink);
             if p == "C07" {
                 let bx = boxed_positions(rng, 800 * sc);
@@ -184,11 +227,13 @@ fn campaign(a: &Args, rng: &mut Rng, rep: &mut Report, sink: &mut Sink) {
             run_positions(rng, 150 * sc, &[6, 14, 24, 32], &[Policy::Capture, Policy::PassOften, Policy::FourSteps, Policy::RepSeek], 80, true, rep, sink, light);
         }
         "C09" => {
+            setup_corners(rng, rep, sink, light, 4);
             for _ in 0..40 * sc {
                 setup_walk(rng, rep, sink, full, 4, Policy::Uniform);
             }
         }
         "C10" | "C19" => {
+            run_scripts(rng, rep, sink, Emit { obs_pm: 200, all_t_pm: 0 });
             if p == "C19" {
                 unreach::run(rng, 3000 * sc, rep, sink);
             }
@@ -196,6 +241,7 @@ fn campaign(a: &Args, rng: &mut Rng, rep: &mut Report, sink: &mut Sink) {
                 let pol = *rng.pick(&all);
                 setup_walk(rng, rep, sink, light, 60, pol);
             }
+            stale_games(rng, 100 * sc, rep, sink);
             run_motifs(rng, 500 * sc, 5, rep, sink, light);
             run_positions(rng, 150 * sc, &[3, 8, 16, 32], &all, 60, true, rep, sink, light);
             // parseable but illegal diagrams as game starts
